@@ -82,6 +82,9 @@ type BootCase struct {
 	// RSFault: the member-local region store (leveldb "region-meta", a cache of the regions kept in
 	// etcd) is broken for the whole case: its leveldb handle is closed before the first request.
 	RSFault bool `json:"rsFault,omitempty"`
+	// RaceFaults[i]: the guarded bootstrap txn of race request i fails with an error before it is
+	// sent (timeout / lost connection on the way to etcd) — while the other requests' txns go through.
+	RaceFaults []bool `json:"raceFaults,omitempty"`
 }
 
 // Fault: a valid Bootstrap request is first run fault-free on the fresh server to count the etcd
@@ -124,6 +127,17 @@ func genBoot(t *rapid.T) BootCase {
 		c.Reqs = append(c.Reqs, genReq(t, 6))
 	}
 	c.Mode = rapid.SampledFrom([]string{"gate", "gate", "gate", "free"}).Draw(t, "mode")
+	if rapid.IntRange(0, 3).Draw(t, "withRaceFaults") == 3 {
+		any := false
+		fl := make([]bool, k)
+		for i := range fl {
+			fl[i] = rapid.IntRange(0, 2).Draw(t, "raceFault") == 2
+			any = any || fl[i]
+		}
+		if any {
+			c.RaceFaults = fl
+		}
+	}
 	if c.Mode == "gate" {
 		c.Sched = rapid.SliceOfN(rapid.IntRange(0, 5), 0, 8).Draw(t, "sched")
 	}
@@ -1118,7 +1132,8 @@ func runBootOn(f *liveFix, c BootCase) (vkit.Info, error) {
 		b.all = append(b.all, in)
 		return in
 	}
-	var sc atomic.Value // *gate.Sched while a gated race is running
+	var sc atomic.Value         // *gate.Sched while a gated race is running
+	var raceFaults atomic.Value // map[store key]bool: whose guarded txn fails before it is sent (during the race)
 	parkedCnt := int32(0)
 	install := func() {
 		f.kvw.set(&txnHooks{
@@ -1132,6 +1147,13 @@ func runBootOn(f *liveFix, c BootCase) (vkit.Info, error) {
 				}
 				p, _ := f.plan.Load().(*faultPlan)
 				if isBoot {
+					if rf, _ := raceFaults.Load().(map[string]bool); rf != nil {
+						for k := range ti.puts {
+							if rf[k] {
+								return 1
+							}
+						}
+					}
 					return p.next("txn bootstrap")
 				}
 				return p.next("txn " + ti.first)
@@ -1192,6 +1214,22 @@ func runBootOn(f *liveFix, c BootCase) (vkit.Info, error) {
 		info.Class("race-" + kindClass(r))
 		info.ClassIf(r.Shape != 0, fmt.Sprintf("race-unusual-shape-%d", r.Shape))
 	}
+	faulted := make([]bool, len(race))
+	nFaulted := 0
+	if len(c.RaceFaults) == len(race) {
+		rf := map[string]bool{}
+		for i, in := range race {
+			if c.RaceFaults[i] && in.req.GetStore() != nil {
+				faulted[i] = true
+				rf[path.Join(b.root, "s", fmt.Sprintf("%020d", in.req.GetStore().GetId()))] = true
+				if in.valid {
+					nValid--
+					nFaulted++
+				}
+			}
+		}
+		raceFaults.Store(rf)
+	}
 	if c.Mode == "gate" {
 		s := gate.New()
 		s.Watchdog = 30 * time.Second
@@ -1227,9 +1265,13 @@ func runBootOn(f *liveFix, c BootCase) (vkit.Info, error) {
 		close(start)
 		wg.Wait()
 	}
+	raceFaults.Store(map[string]bool(nil))
 	var succ []*inst
 	nAlready := 0
 	for i, in := range race {
+		if faulted[i] && outs[i].ok {
+			return info, fmt.Errorf("race: %s was answered with success although its guarded bootstrap txn failed with an error and was never sent to etcd [outcomes: %s]", in.name, describe(race, outs))
+		}
 		if err := b.classify(in, outs[i], "race"); err != nil {
 			if err != errInconclusive {
 				err = fmt.Errorf("%v [outcomes: %s]", err, describe(race, outs))
@@ -1267,11 +1309,12 @@ func runBootOn(f *liveFix, c BootCase) (vkit.Info, error) {
 	}
 	info.Class("mode-" + c.Mode)
 	info.Class(fmt.Sprintf("race-valid-%d", nValid))
+	info.ClassIf(nFaulted > 0, "race-valid-request-with-failed-txn")
 	info.ClassIf(c.Mode == "gate" && atomic.LoadInt32(&parkedCnt) >= 2, "gate-2+-txns-parked-together")
 	info.ClassIf(nAlready > 0, "race-loser-already-bootstrapped")
 	info.ClassIf(b.winner == nil, "race-nobody-valid")
 	info.ClassIf(hadWinner != nil, "race-on-bootstrapped-cluster")
-	info.NonTrivial = nValid >= 2 && hadWinner == nil
+	info.NonTrivial = nValid+nFaulted >= 2 && hadWinner == nil
 
 	// ---- afterwards: fresh requests, repeats, leader change
 	for _, r := range c.Late {
